@@ -45,7 +45,11 @@ func Spec_calculateReferencePointDiffs(
 	for _, c := range *criteria {
 		difference := a.Spec_CriterionValue(&c) - r.Spec_CriterionValue(&c)
 		if scaleRatio, ok := scaleRatios[c.Id]; ok {
-			scaledDif := difference * scaleRatio.Scale
+			// C19: the difference scaled by the criterion's value range (a division: the two ends of the range differ by 1)
+			scaledDif := 0.0
+			if scaleRatio.Scale != 0 {
+				scaledDif = difference / scaleRatio.ValuesRange.Spec_Diff()
+			}
 			var value float64
 			if scaledDif > 0 {
 				value = gain.fun.Evaluate(gain.params, scaledDif)
